@@ -995,4 +995,486 @@ theorem cart_volumes_sum_3d_aux (x0 y0 z0 : Rat) (xs ys zs : List Rat)
     rw [this, sumf_mul_left, sum_pairs_diff]; ring
   rw [sumf_congr hz, sumf_mul_left, sum_pairs_diff]
 
+/-! ### legacy 2-D path -/
+
+theorem reorient_s (c : P2) (f : OFace) : (reorient c f).s = 1 := by
+  unfold reorient; split <;> rfl
+
+theorem reorient_mx (c : P2) (f : OFace) : (reorient c f).mx = f.mx := by
+  unfold reorient; split <;> simp only [OFace.mx] <;> ring
+
+theorem reorient_my (c : P2) (f : OFace) : (reorient c f).my = f.my := by
+  unfold reorient; split <;> simp only [OFace.my] <;> ring
+
+theorem legacy_side (c : P2) (f : OFace) (hs : f.s = 1 ∨ f.s = -1) (hχ : f.chi c ≠ 0) :
+    f.s * legacyNx c f = (reorient c f).nx 1 ∧ f.s * legacyNy c f = (reorient c f).ny 1
+    ∧ wAbs c f = wOriented 1 c (reorient c f) ∧ 2 * wAbs c f = absR (f.chi c) := by
+  have hsub : f.subZ c = f.s * f.chi c / 2 := by simp only [OFace.subZ, OFace.chi]; ring
+  rcases lt_or_gt_of_ne hχ with hneg | hpos
+  · -- clockwise as seen from c: the re-oriented face is reversed
+    have hr : reorient c f = ⟨f.b, f.a, 1⟩ := by unfold reorient; rw [if_neg (by linarith)]
+    rw [hr]
+    have hw : wOriented 1 c ⟨f.b, f.a, 1⟩ = -(f.chi c) / 2 := by
+      simp only [wOriented, OFace.subZ, OFace.chi, OFace.mx, OFace.my, OFace.tx, OFace.ty]; ring
+    rcases hs with h | h
+    · have c1 : f.s * f.chi c < 0 := by rw [h]; linarith
+      have ha : absR (f.subZ c) = -(f.chi c) / 2 := by
+        rw [hsub, h]; unfold absR; rw [if_pos (by linarith)]; ring
+      refine ⟨?_, ?_, ?_, ?_⟩
+      · unfold legacyNx; rw [if_pos c1, h]; simp only [OFace.nx, OFace.ty]; ring
+      · unfold legacyNy; rw [if_pos c1, h]; simp only [OFace.ny, OFace.tx]; ring
+      · unfold wAbs; rw [ha, hw]
+      · unfold wAbs; rw [ha]; unfold absR; rw [if_pos hneg]; ring
+    · have c1 : ¬ (f.s * f.chi c < 0) := by rw [h]; linarith
+      have ha : absR (f.subZ c) = -(f.chi c) / 2 := by
+        rw [hsub, h]; unfold absR; rw [if_neg (by linarith)]; ring
+      refine ⟨?_, ?_, ?_, ?_⟩
+      · unfold legacyNx; rw [if_neg c1, h]; simp only [OFace.nx, OFace.ty]; ring
+      · unfold legacyNy; rw [if_neg c1, h]; simp only [OFace.ny, OFace.tx]; ring
+      · unfold wAbs; rw [ha, hw]
+      · unfold wAbs; rw [ha]; unfold absR; rw [if_pos hneg]; ring
+  · have hr : reorient c f = ⟨f.a, f.b, 1⟩ := by unfold reorient; rw [if_pos (by linarith)]
+    rw [hr]
+    have hw : wOriented 1 c ⟨f.a, f.b, 1⟩ = f.chi c / 2 := by
+      simp only [wOriented, OFace.subZ, OFace.chi, OFace.mx, OFace.my, OFace.tx, OFace.ty]; ring
+    rcases hs with h | h
+    · have c1 : ¬ (f.s * f.chi c < 0) := by rw [h]; linarith
+      have ha : absR (f.subZ c) = f.chi c / 2 := by
+        rw [hsub, h]; unfold absR; rw [if_neg (by linarith)]; ring
+      refine ⟨?_, ?_, ?_, ?_⟩
+      · unfold legacyNx; rw [if_neg c1, h]; simp only [OFace.nx, OFace.ty]; ring
+      · unfold legacyNy; rw [if_neg c1, h]; simp only [OFace.ny, OFace.tx]; ring
+      · unfold wAbs; rw [ha, hw]
+      · unfold wAbs; rw [ha]; unfold absR; rw [if_neg (by linarith)]; ring
+    · have c1 : f.s * f.chi c < 0 := by rw [h]; linarith
+      have ha : absR (f.subZ c) = f.chi c / 2 := by
+        rw [hsub, h]; unfold absR; rw [if_pos (by linarith)]; ring
+      refine ⟨?_, ?_, ?_, ?_⟩
+      · unfold legacyNx; rw [if_pos c1, h]; simp only [OFace.nx, OFace.ty]; ring
+      · unfold legacyNy; rw [if_pos c1, h]; simp only [OFace.ny, OFace.tx]; ring
+      · unfold wAbs; rw [ha, hw]
+      · unfold wAbs; rw [ha]; unfold absR; rw [if_neg (by linarith)]; ring
+
+theorem absR_pos {q : Rat} (h : q ≠ 0) : 0 < absR q := by
+  unfold absR
+  split
+  · linarith
+  · rcases lt_or_gt_of_ne h with h1 | h1
+    · contradiction
+    · exact h1
+
+theorem reorient_redirect (c : P2) (f : OFace) (flip : Bool) (s : Rat) (hf : f.s = 1) (hpos : 0 < f.chi c) :
+    reorient c (redirect flip s f) = f := by
+  cases flip with
+  | false =>
+    have : (redirect false s f).chi c = f.chi c := by simp [redirect, OFace.chi, OFace.mx, OFace.my, OFace.tx, OFace.ty]
+    unfold reorient
+    rw [this, if_pos (le_of_lt hpos)]
+    cases f; simp_all [redirect]
+  | true =>
+    have : (redirect true s f).chi c = -(f.chi c) := by
+      simp [redirect, OFace.chi, OFace.mx, OFace.my, OFace.tx, OFace.ty]; ring
+    unfold reorient
+    rw [this, if_neg (by linarith)]
+    cases f; simp_all [redirect]
+
+theorem legacy_scrambled_aux (c : P2) (l : List OFace) (ch : List (Bool × Rat))
+    (hlen : ch.length = l.length) (hl : ∀ f ∈ l, f.s = 1 ∧ 0 < f.chi c) :
+    (List.zipWith (fun f k => redirect k.1 k.2 f) l ch).map (reorient c) = l := by
+  induction l generalizing ch with
+  | nil => simp
+  | cons f l ih =>
+    cases ch with
+    | nil => simp at hlen
+    | cons k ch =>
+      simp only [List.zipWith_cons_cons, List.map_cons]
+      have hf := hl f List.mem_cons_self
+      rw [reorient_redirect c f k.1 k.2 hf.1 hf.2,
+        ih ch (by simpa using hlen) (fun g hg => hl g (List.mem_cons_of_mem _ hg))]
+
+/-! ### rigid embedding -/
+
+theorem orth_dot (R : M3) (h : R.Orth) (u v : P3) : (R.mulVec u).dot (R.mulVec v) = u.dot v := by
+  obtain ⟨h1, h2, h3, h4, h5, h6⟩ := h
+  simp only [M3.mulVec, P3.dot]
+  linear_combination (u.x * v.x) * h1 + (u.y * v.y) * h2 + (u.z * v.z) * h3 + (u.x * v.y + u.y * v.x) * h4
+    + (u.x * v.z + u.z * v.x) * h5 + (u.y * v.z + u.z * v.y) * h6
+
+theorem embedP_sub (R : M3) (b : P3) (p q : P2) :
+    (embedP R b p).sub (embedP R b q) = embedV R ⟨p.x - q.x, p.y - q.y⟩ := by
+  ext <;> simp [embedP, embedV, M3.mulVec, lift, P3.dot] <;> ring
+
+theorem embedV_dot (R : M3) (h : R.Orth) (u v : P2) : (embedV R u).dot (embedV R v) = u.x * v.x + u.y * v.y := by
+  unfold embedV; rw [orth_dot R h]; simp [lift, P3.dot]
+
+theorem sum3_smul_embedV {α : Type} (R : M3) (k wx wy : α → Rat) (l : List α) :
+    sum3 (fun a => P3.smul (k a) (embedV R ⟨wx a, wy a⟩)) l
+      = embedV R ⟨sumf (fun a => k a * wx a) l, sumf (fun a => k a * wy a) l⟩ := by
+  induction l with
+  | nil => ext <;> simp [embedV, M3.mulVec, lift, P3.dot]
+  | cons a l ih =>
+    rw [sum3_cons, ih]
+    ext <;> simp [embedV, M3.mulVec, lift, P3.dot] <;> ring
+
+theorem embedV_smul (R : M3) (k : Rat) (w : P2) : embedV R ⟨k * w.x, k * w.y⟩ = P3.smul k (embedV R w) := by
+  ext <;> simp [embedV, M3.mulVec, lift, P3.dot] <;> ring
+
+/-! ### 3-D positivity -/
+
+section face3
+variable (vs : List P3) (σ : Rat)
+variable (hN : (faceN vs).dot (faceN vs) ≠ 0)
+variable (hpl : ∀ e ∈ cycEdges vs, 0 ≤ (subN (mean3 vs) e).dot (faceN vs) ∧
+    P3.smul ((faceN vs).dot (faceN vs)) (subN (mean3 vs) e) = P3.smul ((subN (mean3 vs) e).dot (faceN vs)) (faceN vs))
+variable (hnp : ∀ v ∈ vs, (v.sub (mean3 vs)).dot (faceN vs) = 0)
+
+include hN hpl hnp in
+/-- sub-tetrahedron volume on a planar star-shaped face: `d_e · σ (m − tc)·N / (3 N·N)` -/
+theorem tetVol_planar (tc : P3) (e : P3 × P3) (he : e ∈ cycEdges vs) :
+    tetVol tc (vs, σ) e * (3 * (faceN vs).dot (faceN vs))
+      = (subN (mean3 vs) e).dot (faceN vs) * (σ * ((mean3 vs).sub tc).dot (faceN vs)) := by
+  rw [tetVol_eq vs σ hN hpl tc e he, P3.dot_smul_right]
+  obtain ⟨_, hpar⟩ := hpl e he
+  have hpd := congrArg (fun v => ((subC (mean3 vs) e).sub tc).dot v) hpar
+  simp only [P3.dot_smul_right] at hpd
+  rw [subC_planar vs hnp e he tc] at hpd
+  linear_combination (σ) * hpd
+
+include hN hpl hnp in
+theorem tetVol_nonneg (tc : P3) (hout : 0 < σ * ((mean3 vs).sub tc).dot (faceN vs)) (e : P3 × P3)
+    (he : e ∈ cycEdges vs) : 0 ≤ tetVol tc (vs, σ) e := by
+  have h := tetVol_planar vs σ hN hpl hnp tc e he
+  have hA : 0 < (faceN vs).dot (faceN vs) := by
+    have : 0 ≤ (faceN vs).dot (faceN vs) := by
+      simp only [P3.dot]; nlinarith [mul_self_nonneg (faceN vs).x, mul_self_nonneg (faceN vs).y, mul_self_nonneg (faceN vs).z]
+    exact lt_of_le_of_ne this (Ne.symm hN)
+  have hd := (hpl e he).1
+  have : 0 ≤ tetVol tc (vs, σ) e * (3 * (faceN vs).dot (faceN vs)) := by
+    rw [h]; exact mul_nonneg hd (le_of_lt hout)
+  by_contra hneg
+  have hneg' : tetVol tc (vs, σ) e < 0 := not_le.mp hneg
+  nlinarith
+
+include hN hpl hnp in
+/-- volume of the cone over a planar star-shaped face: `σ (m − tc)·N / 3` -/
+theorem faceVol_planar (tc : P3) : faceVol tc (vs, σ) = σ * ((mean3 vs).sub tc).dot (faceN vs) / 3 := by
+  have hsum : faceVol tc (vs, σ) * (3 * (faceN vs).dot (faceN vs))
+      = (faceN vs).dot (faceN vs) * (σ * ((mean3 vs).sub tc).dot (faceN vs)) := by
+    unfold faceVol
+    rw [← sumf_mul_right, sumf_congr (fun e he => tetVol_planar vs σ hN hpl hnp tc e he), sumf_mul_right, sum_d_eq]
+  field_simp
+  field_simp at hsum
+  linarith
+end face3
+
+/-- Star-shaped cells: if `tc` lies strictly inside every (outward oriented, planar, star-shaped) face plane,
+    every sub-tetrahedron has non-negative volume, every face cone has positive volume, and so has the cell. -/
+theorem star_cell_volume_pos_aux (cell : Cell3) (tc : P3) (hne : cell ≠ []) (hpl : PlanarStar cell)
+    (hnp : NodesPlanar cell) (hst : StarAbout tc cell) :
+    (∀ f ∈ cell, ∀ e ∈ cycEdges f.1, 0 ≤ tetVol tc f e) ∧ (∀ f ∈ cell, 0 < faceVol tc f) ∧ 0 < cellVol3 tc cell := by
+  have hf : ∀ f ∈ cell, 0 < faceVol tc f := by
+    intro f hf
+    obtain ⟨hN, hpe⟩ := hpl f hf
+    have : faceVol tc f = faceVol tc (f.1, f.2) := rfl
+    rw [this, faceVol_planar f.1 f.2 hN hpe (hnp f hf) tc]
+    have := hst f hf
+    linarith
+  refine ⟨?_, hf, sumf_pos hne hf⟩
+  intro f hf e he
+  obtain ⟨hN, hpe⟩ := hpl f hf
+  exact tetVol_nonneg f.1 f.2 hN hpe (hnp f hf) tc (hst f hf) e he
+
+theorem faceCtr_planar (vs : List P3) (hN : (faceN vs).dot (faceN vs) ≠ 0)
+    (hpl : ∀ e ∈ cycEdges vs, 0 ≤ (subN (mean3 vs) e).dot (faceN vs) ∧
+      P3.smul ((faceN vs).dot (faceN vs)) (subN (mean3 vs) e) = P3.smul ((subN (mean3 vs) e).dot (faceN vs)) (faceN vs))
+    (hnp : ∀ v ∈ vs, (v.sub (mean3 vs)).dot (faceN vs) = 0) :
+    ((faceCtr vs).sub (mean3 vs)).dot (faceN vs) = 0 := by
+  have h1 := faceCtr_dot_any vs hN hpl (faceN vs)
+  have : ∀ e ∈ cycEdges vs, (subN (mean3 vs) e).dot (faceN vs) * (subC (mean3 vs) e).dot (faceN vs)
+      = (mean3 vs).dot (faceN vs) * (subN (mean3 vs) e).dot (faceN vs) := by
+    intro e he
+    have := subC_planar vs hnp e he P3.zero
+    simp only [P3.dot_sub_left] at this
+    have : (subC (mean3 vs) e).dot (faceN vs) = (mean3 vs).dot (faceN vs) := by linarith
+    rw [this]; ring
+  rw [sumf_congr this, sumf_mul_left, sum_d_eq] at h1
+  have := mul_right_cancel₀ hN h1
+  rw [P3.dot_sub_left, this]; ring
+
+/-- Convex cells are star-shaped about the temporary cell centre the code uses. -/
+theorem convex_star_aux (cell : Cell3) (hc : ConvexCell cell) :
+    StarAbout (tempCenter3 cell) cell := by
+  intro f hf
+  obtain ⟨hlen, hall, g, hg, hgneg⟩ := hc f hf
+  -- E > 0
+  have hE : 0 < numEdges cell := by
+    unfold numEdges
+    exact sumf_pos_of_exists (fun a ha => le_of_lt (hc a ha).1) ⟨f, hf, hlen⟩
+  -- E * (tc − m)·N = Σ_g n_g (x_g − m)·N
+  have hkey : numEdges cell * (f.2 * ((tempCenter3 cell).sub (mean3 f.1)).dot (faceN f.1))
+      = sumf (fun g => (g.1.length : Rat) * (f.2 * ((faceCtr g.1).sub (mean3 f.1)).dot (faceN f.1))) cell := by
+    have e1 : sumf (fun g : List P3 × Rat => (g.1.length : Rat) * (f.2 * ((faceCtr g.1).sub (mean3 f.1)).dot (faceN f.1))) cell
+        = f.2 * (sumf (fun g : List P3 × Rat => (P3.smul (g.1.length : Rat) (faceCtr g.1)).dot (faceN f.1)) cell
+            - numEdges cell * (mean3 f.1).dot (faceN f.1)) := by
+      unfold numEdges
+      rw [← sumf_mul_right, ← sumf_sub, ← sumf_mul_left]
+      apply sumf_congr; intro g _
+      rw [P3.dot_smul_left, P3.dot_sub_left]; ring
+    rw [e1, ← dot_sum3]
+    unfold tempCenter3
+    rw [P3.dot_sub_left, P3.dot_smul_left]
+    field_simp
+  have hneg : sumf (fun g => (g.1.length : Rat) * (f.2 * ((faceCtr g.1).sub (mean3 f.1)).dot (faceN f.1))) cell < 0 := by
+    have := sumf_pos_of_exists (g := fun g : List P3 × Rat => -((g.1.length : Rat) * (f.2 * ((faceCtr g.1).sub (mean3 f.1)).dot (faceN f.1))))
+      (l := cell)
+      (fun a ha => by
+        have h1 := (hc a ha).1
+        have h2 := hall a ha
+        nlinarith)
+      ⟨g, hg, by
+        have h1 := (hc g hg).1
+        nlinarith⟩
+    have e2 : sumf (fun g : List P3 × Rat => -((g.1.length : Rat) * (f.2 * ((faceCtr g.1).sub (mean3 f.1)).dot (faceN f.1)))) cell
+        = -1 * sumf (fun g : List P3 × Rat => (g.1.length : Rat) * (f.2 * ((faceCtr g.1).sub (mean3 f.1)).dot (faceN f.1))) cell := by
+      rw [← sumf_mul_left]; apply sumf_congr; intro a _; ring
+    rw [e2] at this
+    linarith
+  rw [← hkey] at hneg
+  have h3 : f.2 * ((tempCenter3 cell).sub (mean3 f.1)).dot (faceN f.1) < 0 := by
+    by_contra hge
+    have hge' : 0 ≤ f.2 * ((tempCenter3 cell).sub (mean3 f.1)).dot (faceN f.1) := not_lt.mp hge
+    nlinarith
+  have h4 : ((mean3 f.1).sub (tempCenter3 cell)).dot (faceN f.1) = -(((tempCenter3 cell).sub (mean3 f.1)).dot (faceN f.1)) := by
+    simp only [P3.dot_sub_left]; ring
+  rw [h4]; linarith
+
+
+/-! ### face centre of triangles and parallelograms, instances -/
+
+theorem dot_self_zero {v : P3} (h : v.dot v = 0) : v.x = 0 ∧ v.y = 0 ∧ v.z = 0 := by
+  simp only [P3.dot] at h
+  refine ⟨?_, ?_, ?_⟩ <;> nlinarith [mul_self_nonneg v.x, mul_self_nonneg v.y, mul_self_nonneg v.z]
+
+theorem faceCtr_eq_mean (vs : List P3) (hN : (faceN vs).dot (faceN vs) ≠ 0)
+    (hpl : ∀ e ∈ cycEdges vs, 0 ≤ (subN (mean3 vs) e).dot (faceN vs) ∧
+      P3.smul ((faceN vs).dot (faceN vs)) (subN (mean3 vs) e) = P3.smul ((subN (mean3 vs) e).dot (faceN vs)) (faceN vs))
+    (n : Rat) (hn : n ≠ 0)
+    (hd : ∀ e ∈ cycEdges vs, (subN (mean3 vs) e).dot (faceN vs) = (faceN vs).dot (faceN vs) / n)
+    (hq : ∀ r : P3, sumf (fun e => (subC (mean3 vs) e).dot r) (cycEdges vs) = n * (mean3 vs).dot r) :
+    faceCtr vs = mean3 vs := by
+  have key : ∀ r : P3, (faceCtr vs).dot r = (mean3 vs).dot r := by
+    intro r
+    have h1 := faceCtr_dot_any vs hN hpl r
+    have : ∀ e ∈ cycEdges vs, (subN (mean3 vs) e).dot (faceN vs) * (subC (mean3 vs) e).dot r
+        = ((faceN vs).dot (faceN vs) / n) * (subC (mean3 vs) e).dot r := by
+      intro e he; rw [hd e he]
+    rw [sumf_congr this, sumf_mul_left, hq r] at h1
+    have h2 : (faceCtr vs).dot r * (faceN vs).dot (faceN vs) = (mean3 vs).dot r * (faceN vs).dot (faceN vs) := by
+      rw [h1]; field_simp
+    exact mul_right_cancel₀ hN h2
+  have hx := key ⟨1, 0, 0⟩
+  have hy := key ⟨0, 1, 0⟩
+  have hz := key ⟨0, 0, 1⟩
+  simp only [P3.dot, mul_one, mul_zero, add_zero, zero_add] at hx hy hz
+  ext <;> assumption
+
+theorem tri_faceCtr (a b c : P3) (hnd : (faceN [a, b, c]).dot (faceN [a, b, c]) ≠ 0) :
+    faceCtr [a, b, c] = mean3 [a, b, c] := by
+  apply faceCtr_eq_mean _ hnd (tri_planarStar a b c hnd).2 3 (by norm_num)
+  · intro e he
+    simp only [cycEdges, pathEdges, List.mem_cons, List.not_mem_nil, or_false] at he
+    rcases he with rfl | rfl | rfl <;>
+    · simp [faceN, subN, mean3, cycEdges, pathEdges, P3.dot]; ring
+  · intro r
+    simp [subC, mean3, cycEdges, pathEdges, P3.dot]; ring
+
+theorem para_faceCtr (a b c d : P3) (hd : d = (a.add c).sub b) (hnd : (faceN [a, b, c, d]).dot (faceN [a, b, c, d]) ≠ 0) :
+    faceCtr [a, b, c, d] = mean3 [a, b, c, d] := by
+  subst hd
+  apply faceCtr_eq_mean _ hnd (para_planarStar a b c hnd).2 4 (by norm_num)
+  · intro e he
+    simp only [cycEdges, pathEdges, List.mem_cons, List.not_mem_nil, or_false] at he
+    rcases he with rfl | rfl | rfl | rfl <;>
+    · simp [faceN, subN, mean3, cycEdges, pathEdges, P3.dot]; ring
+  · intro r
+    simp [subC, mean3, cycEdges, pathEdges, P3.dot]; ring
+
+theorem para_nodesPlanar (a b c d : P3) (hd : d = (a.add c).sub b) :
+    ∀ v ∈ [a, b, c, d], (v.sub (mean3 [a, b, c, d])).dot (faceN [a, b, c, d]) = 0 := by
+  subst hd
+  intro v hv
+  simp only [List.mem_cons, List.not_mem_nil, or_false] at hv
+  rcases hv with rfl | rfl | rfl | rfl <;>
+  · simp [faceN, subN, mean3, cycEdges, pathEdges, P3.dot]
+    ring
+
+
+/-! ### tetrahedron -/
+
+theorem tet_nondegenerate (p0 p1 p2 p3 : P3) (hdet : det3 (p1.sub p0) (p2.sub p0) (p3.sub p0) ≠ 0) :
+    ∀ f ∈ tetCell p0 p1 p2 p3, (faceN f.1).dot (faceN f.1) ≠ 0 := by
+  intro f hf h0
+  obtain ⟨hx, hy, hz⟩ := dot_self_zero h0
+  apply hdet
+  simp only [tetCell, List.mem_cons, List.not_mem_nil, or_false] at hf
+  rcases hf with rfl | rfl | rfl | rfl
+  · have e : det3 (p1.sub p0) (p2.sub p0) (p3.sub p0)
+        = -2 * ((faceN [p0, p2, p1]).x * (p3.x - p0.x) + (faceN [p0, p2, p1]).y * (p3.y - p0.y) + (faceN [p0, p2, p1]).z * (p3.z - p0.z)) := by
+      simp [det3, faceN, subN, mean3, cycEdges, pathEdges, P3.dot]; ring
+    rw [e, hx, hy, hz]; ring
+  · have e : det3 (p1.sub p0) (p2.sub p0) (p3.sub p0)
+        = -2 * ((faceN [p0, p1, p3]).x * (p2.x - p0.x) + (faceN [p0, p1, p3]).y * (p2.y - p0.y) + (faceN [p0, p1, p3]).z * (p2.z - p0.z)) := by
+      simp [det3, faceN, subN, mean3, cycEdges, pathEdges, P3.dot]; ring
+    rw [e, hx, hy, hz]; ring
+  · have e : det3 (p1.sub p0) (p2.sub p0) (p3.sub p0)
+        = 2 * ((faceN [p1, p2, p3]).x * (p1.x - p0.x) + (faceN [p1, p2, p3]).y * (p1.y - p0.y) + (faceN [p1, p2, p3]).z * (p1.z - p0.z)) := by
+      simp [det3, faceN, subN, mean3, cycEdges, pathEdges, P3.dot]; ring
+    rw [e, hx, hy, hz]; ring
+  · have e : det3 (p1.sub p0) (p2.sub p0) (p3.sub p0)
+        = -2 * ((faceN [p0, p3, p2]).x * (p1.x - p0.x) + (faceN [p0, p3, p2]).y * (p1.y - p0.y) + (faceN [p0, p3, p2]).z * (p1.z - p0.z)) := by
+      simp [det3, faceN, subN, mean3, cycEdges, pathEdges, P3.dot]; ring
+    rw [e, hx, hy, hz]; ring
+
+theorem tet_tempCenter (p0 p1 p2 p3 : P3) (hnd : ∀ f ∈ tetCell p0 p1 p2 p3, (faceN f.1).dot (faceN f.1) ≠ 0) :
+    tempCenter3 (tetCell p0 p1 p2 p3) = P3.smul (1 / 4) (((p0.add p1).add p2).add p3) := by
+  have h1 := tri_faceCtr p0 p2 p1 (hnd ([p0, p2, p1], 1) (by simp [tetCell]))
+  have h2 := tri_faceCtr p0 p1 p3 (hnd ([p0, p1, p3], 1) (by simp [tetCell]))
+  have h3 := tri_faceCtr p1 p2 p3 (hnd ([p1, p2, p3], 1) (by simp [tetCell]))
+  have h4 := tri_faceCtr p0 p3 p2 (hnd ([p0, p3, p2], 1) (by simp [tetCell]))
+  simp only [tempCenter3, numEdges, tetCell, sumf_cons, sumf_nil, sum3_cons, sum3_nil, h1, h2, h3, h4]
+  ext <;> simp [mean3] <;> ring
+
+theorem tet_star (p0 p1 p2 p3 : P3) (hdet : 0 < det3 (p1.sub p0) (p2.sub p0) (p3.sub p0)) :
+    StarAbout (tempCenter3 (tetCell p0 p1 p2 p3)) (tetCell p0 p1 p2 p3) := by
+  have hnd := tet_nondegenerate p0 p1 p2 p3 (ne_of_gt hdet)
+  rw [tet_tempCenter p0 p1 p2 p3 hnd]
+  intro f hf
+  have key : f.2 * ((mean3 f.1).sub (P3.smul (1 / 4) (((p0.add p1).add p2).add p3))).dot (faceN f.1)
+      = det3 (p1.sub p0) (p2.sub p0) (p3.sub p0) / 8 := by
+    simp only [tetCell, List.mem_cons, List.not_mem_nil, or_false] at hf
+    rcases hf with rfl | rfl | rfl | rfl <;>
+    · simp [det3, faceN, subN, mean3, cycEdges, pathEdges, P3.dot]; ring
+  rw [key]; linarith
+
+theorem tet_volume (p0 p1 p2 p3 tc : P3) (hdet : det3 (p1.sub p0) (p2.sub p0) (p3.sub p0) ≠ 0) :
+    cellVol3 tc (tetCell p0 p1 p2 p3) = det3 (p1.sub p0) (p2.sub p0) (p3.sub p0) / 6 := by
+  have hnd := tet_nondegenerate p0 p1 p2 p3 hdet
+  have h := three_vol_eq_QS _ tc (tet_paired p0 p1 p2 p3) (tet_planarStar p0 p1 p2 p3 hnd)
+  have : sumf (fun f => f.2 * faceQS f.1) (tetCell p0 p1 p2 p3) = det3 (p1.sub p0) (p2.sub p0) (p3.sub p0) / 2 := by
+    simp [tetCell, faceQS, det3, subC, subN, mean3, cycEdges, pathEdges, P3.dot]
+    ring
+  linarith
+
+/-! ### parallelepiped -/
+
+theorem para_faces (p u v w : P3) : ∀ f ∈ paraCell p u v w,
+    ∃ a b c d, f.1 = [a, b, c, d] ∧ d = (a.add c).sub b := by
+  intro f hf
+  simp only [paraCell, List.mem_cons, List.not_mem_nil, or_false] at hf
+  rcases hf with rfl | rfl | rfl | rfl | rfl | rfl <;>
+  · refine ⟨_, _, _, _, rfl, ?_⟩
+    ext <;> simp <;> ring
+
+theorem para_nondegenerate (p u v w : P3) (hdet : det3 u v w ≠ 0) :
+    ∀ f ∈ paraCell p u v w, (faceN f.1).dot (faceN f.1) ≠ 0 := by
+  intro f hf h0
+  obtain ⟨hx, hy, hz⟩ := dot_self_zero h0
+  apply hdet
+  simp only [paraCell, List.mem_cons, List.not_mem_nil, or_false] at hf
+  rcases hf with rfl | rfl | rfl | rfl | rfl | rfl
+  · have e : det3 u v w = (faceN [p, p.add v, (p.add v).add w, p.add w]).x * u.x + (faceN [p, p.add v, (p.add v).add w, p.add w]).y * u.y
+        + (faceN [p, p.add v, (p.add v).add w, p.add w]).z * u.z := by
+      simp [det3, faceN, subN, mean3, cycEdges, pathEdges, P3.dot]; ring
+    rw [e, hx, hy, hz]; ring
+  · have e : det3 u v w = (faceN [p.add u, (p.add u).add v, ((p.add u).add v).add w, (p.add u).add w]).x * u.x
+        + (faceN [p.add u, (p.add u).add v, ((p.add u).add v).add w, (p.add u).add w]).y * u.y
+        + (faceN [p.add u, (p.add u).add v, ((p.add u).add v).add w, (p.add u).add w]).z * u.z := by
+      simp [det3, faceN, subN, mean3, cycEdges, pathEdges, P3.dot]; ring
+    rw [e, hx, hy, hz]; ring
+  · have e : det3 u v w = (faceN [p, p.add w, (p.add u).add w, p.add u]).x * v.x + (faceN [p, p.add w, (p.add u).add w, p.add u]).y * v.y
+        + (faceN [p, p.add w, (p.add u).add w, p.add u]).z * v.z := by
+      simp [det3, faceN, subN, mean3, cycEdges, pathEdges, P3.dot]; ring
+    rw [e, hx, hy, hz]; ring
+  · have e : det3 u v w = (faceN [p.add v, (p.add v).add w, ((p.add u).add v).add w, (p.add u).add v]).x * v.x
+        + (faceN [p.add v, (p.add v).add w, ((p.add u).add v).add w, (p.add u).add v]).y * v.y
+        + (faceN [p.add v, (p.add v).add w, ((p.add u).add v).add w, (p.add u).add v]).z * v.z := by
+      simp [det3, faceN, subN, mean3, cycEdges, pathEdges, P3.dot]; ring
+    rw [e, hx, hy, hz]; ring
+  · have e : det3 u v w = (faceN [p, p.add u, (p.add u).add v, p.add v]).x * w.x + (faceN [p, p.add u, (p.add u).add v, p.add v]).y * w.y
+        + (faceN [p, p.add u, (p.add u).add v, p.add v]).z * w.z := by
+      simp [det3, faceN, subN, mean3, cycEdges, pathEdges, P3.dot]; ring
+    rw [e, hx, hy, hz]; ring
+  · have e : det3 u v w = (faceN [p.add w, (p.add u).add w, ((p.add u).add v).add w, (p.add v).add w]).x * w.x
+        + (faceN [p.add w, (p.add u).add w, ((p.add u).add v).add w, (p.add v).add w]).y * w.y
+        + (faceN [p.add w, (p.add u).add w, ((p.add u).add v).add w, (p.add v).add w]).z * w.z := by
+      simp [det3, faceN, subN, mean3, cycEdges, pathEdges, P3.dot]; ring
+    rw [e, hx, hy, hz]; ring
+
+theorem para_planarStar_cell (p u v w : P3) (hdet : det3 u v w ≠ 0) : PlanarStar (paraCell p u v w) := by
+  intro f hf
+  obtain ⟨a, b, c, d, hfe, hd⟩ := para_faces p u v w f hf
+  have hn := para_nondegenerate p u v w hdet f hf
+  rw [hfe] at hn ⊢
+  exact para_planarStar' a b c d hd hn
+
+theorem para_nodesPlanar_cell (p u v w : P3) : NodesPlanar (paraCell p u v w) := by
+  intro f hf
+  obtain ⟨a, b, c, d, hfe, hd⟩ := para_faces p u v w f hf
+  rw [hfe]
+  exact para_nodesPlanar a b c d hd
+
+theorem para_paired (p u v w : P3) : EdgePaired (paraCell p u v w) := by
+  intro G hG
+  simp only [dirEdgeSum, paraCell, cycEdges, pathEdges, sumf_cons, sumf_nil]
+  have e1 := hG p (p.add v)
+  have e2 := hG (p.add v) ((p.add v).add w)
+  have e3 := hG ((p.add v).add w) (p.add w)
+  have e4 := hG (p.add w) p
+  have e5 := hG (p.add u) ((p.add u).add v)
+  have e6 := hG ((p.add u).add v) (((p.add u).add v).add w)
+  have e7 := hG (((p.add u).add v).add w) ((p.add u).add w)
+  have e8 := hG ((p.add u).add w) (p.add u)
+  have e9 := hG p (p.add u)
+  have e10 := hG (p.add v) ((p.add u).add v)
+  have e11 := hG ((p.add v).add w) (((p.add u).add v).add w)
+  have e12 := hG (p.add w) ((p.add u).add w)
+  linarith
+
+theorem para_volume (p u v w tc : P3) (hdet : det3 u v w ≠ 0) : cellVol3 tc (paraCell p u v w) = det3 u v w := by
+  have h := three_vol_eq_QS _ tc (para_paired p u v w) (para_planarStar_cell p u v w hdet)
+  have : sumf (fun f => f.2 * faceQS f.1) (paraCell p u v w) = 3 * det3 u v w := by
+    simp [paraCell, faceQS, det3, subC, subN, mean3, cycEdges, pathEdges, P3.dot]
+    ring
+  linarith
+
+theorem para_tempCenter (p u v w : P3) (hdet : det3 u v w ≠ 0) :
+    tempCenter3 (paraCell p u v w) = p.add (P3.smul (1 / 2) ((u.add v).add w)) := by
+  have hnd := para_nondegenerate p u v w hdet
+  have hc : ∀ f ∈ paraCell p u v w, faceCtr f.1 = mean3 f.1 := by
+    intro f hf
+    obtain ⟨a, b, c, d, hfe, hd⟩ := para_faces p u v w f hf
+    have hn := hnd f hf
+    rw [hfe] at hn ⊢
+    exact para_faceCtr a b c d hd hn
+  have h1 := hc _ (List.mem_cons_self)
+  have h2 := hc _ (List.mem_cons_of_mem _ List.mem_cons_self)
+  have h3 := hc _ (List.mem_cons_of_mem _ (List.mem_cons_of_mem _ List.mem_cons_self))
+  have h4 := hc _ (List.mem_cons_of_mem _ (List.mem_cons_of_mem _ (List.mem_cons_of_mem _ List.mem_cons_self)))
+  have h5 := hc _ (List.mem_cons_of_mem _ (List.mem_cons_of_mem _ (List.mem_cons_of_mem _ (List.mem_cons_of_mem _ List.mem_cons_self))))
+  have h6 := hc _ (List.mem_cons_of_mem _ (List.mem_cons_of_mem _ (List.mem_cons_of_mem _ (List.mem_cons_of_mem _
+    (List.mem_cons_of_mem _ List.mem_cons_self)))))
+  simp only [tempCenter3, numEdges, paraCell, sumf_cons, sumf_nil, sum3_cons, sum3_nil] at h1 h2 h3 h4 h5 h6 ⊢
+  rw [h1, h2, h3, h4, h5, h6]
+  ext <;> simp [mean3] <;> ring
+
+theorem para_star (p u v w : P3) (hdet : 0 < det3 u v w) :
+    StarAbout (tempCenter3 (paraCell p u v w)) (paraCell p u v w) := by
+  rw [para_tempCenter p u v w (ne_of_gt hdet)]
+  intro f hf
+  have key : f.2 * ((mean3 f.1).sub (p.add (P3.smul (1 / 2) ((u.add v).add w)))).dot (faceN f.1) = det3 u v w / 2 := by
+    simp only [paraCell, List.mem_cons, List.not_mem_nil, or_false] at hf
+    rcases hf with rfl | rfl | rfl | rfl | rfl | rfl <;>
+    · simp [det3, faceN, subN, mean3, cycEdges, pathEdges, P3.dot]; ring
+  rw [key]; linarith
+
 end PorepyVerif.C19
